@@ -14,7 +14,8 @@ PROP = "C17"
 RULE = ("two discs: radii log-uniform in [1e-3, 1e3] or decimal multiples of 0.1 (equal radii in a quarter of the cases), "
         "first centre arbitrary / decimal / origin, second centre placed at a target distance (r1+r2, |r1-r2|, 0, inside, "
         "crossing, far, random, or tiny: 1e-5 ... 1e-320) along an axis, a 3-4-5 direction or a random angle, then moved by -4..+4 ulps with "
-        "math.nextafter. Oracle: 50-digit mpmath lens area of the float inputs. non-trivial = centre distance within 8 ulps "
+        "math.nextafter; 'shallow' overlaps of 1e-4 ... 1e-2 of the size; in half of the cases a die of 3 ... 10 000 radii is built first "
+        "(process-wide rectangle tolerances defined). Oracle: 50-digit mpmath lens area of the float inputs. non-trivial = centre distance within 8 ulps "
         "of r1+r2 or |r1-r2|, or r1 == r2; distinct = distinct (c1, r1, c2, r2).")
 ASSUMPTIONS = [
     "radii are positive finite floats in [1e-3, 1e3], centres finite floats of magnitude <= 1e4",
